@@ -50,6 +50,7 @@ type GenOpts struct {
 	ValidatorN int
 	ExtraPK    int
 	NoUSDTPool bool
+	NoFrozen   bool
 	Dense      bool // coins 1..1993 dense (filler tokens)
 	BigStakes  bool
 	Emission   string
@@ -222,6 +223,63 @@ func (w *World) BuildGenesis() types.AppState {
 		st.Candidates = append(st.Candidates, c)
 		if i < o.ValidatorN {
 			st.Validators = append(st.Validators, types.Validator{TotalBipStake: total.String(), PubKey: w.PubKeys[i], AccumReward: "0", AbsentTimes: types.NewBitArray(24)})
+		}
+	}
+	// frozen funds (unbonds, moves, locks) and waitlist entries that mature early in the history
+	if !o.NoFrozen {
+		nf := 3 + r.Intn(8)
+		for k := 0; k < nf; k++ {
+			ci := r.Intn(len(st.Candidates))
+			cand := st.Candidates[ci]
+			ow := w.Addrs[r.Intn(len(w.Addrs))]
+			coin := uint64(0)
+			if r.Intn(3) == 0 {
+				coin = []uint64{1, 2, 3}[r.Intn(3)]
+			}
+			v := new(big.Int).Add(pip(50+int64(r.Intn(3000))), big.NewInt(int64(r.Intn(100))))
+			pk := cand.PubKey
+			ff := types.FrozenFund{Height: uint64(InitialHeight + 1 + r.Intn(34)), Address: ow, CandidateKey: &pk, CandidateID: cand.ID, Coin: coin, Value: v.String()}
+			switch r.Intn(5) {
+			case 0: // a stake move in flight
+				to := st.Candidates[(ci+1)%len(st.Candidates)]
+				if to.ID != cand.ID {
+					ff.MoveToCandidateID = to.ID
+				}
+			case 1: // a Lock (no candidate)
+				ff.CandidateKey = nil
+				ff.CandidateID = 0
+				if r.Intn(2) == 0 {
+					ff.Coin = 4
+					coin = 4
+				}
+			}
+			st.FrozenFunds = append(st.FrozenFunds, ff)
+			volumes[coin] = new(big.Int).Add(volOr0(volumes, coin), v)
+		}
+		for i := range st.FrozenFunds { // export order: by height
+			for j := i + 1; j < len(st.FrozenFunds); j++ {
+				if st.FrozenFunds[j].Height < st.FrozenFunds[i].Height {
+					st.FrozenFunds[i], st.FrozenFunds[j] = st.FrozenFunds[j], st.FrozenFunds[i]
+				}
+			}
+		}
+		nw := r.Intn(4)
+		seenW := map[string]bool{}
+		for k := 0; k < nw; k++ {
+			cand := st.Candidates[r.Intn(len(st.Candidates))]
+			ow := w.Addrs[r.Intn(len(w.Addrs))]
+			coin := uint64(0)
+			if r.Intn(3) == 0 {
+				coin = 1
+			}
+			key := fmt.Sprintf("%d:%s:%d", cand.ID, ow.String(), coin)
+			if seenW[key] {
+				continue
+			}
+			seenW[key] = true
+			v := pip(10 + int64(r.Intn(900)))
+			st.Waitlist = append(st.Waitlist, types.Waitlist{CandidateID: cand.ID, Owner: ow, Coin: coin, Value: v.String()})
+			volumes[coin] = new(big.Int).Add(volOr0(volumes, coin), v)
 		}
 	}
 	// multisig account
